@@ -10,6 +10,8 @@ import Earverif.Proofs.C02Vbs
 import Earverif.Proofs.C02Laws
 import Earverif.Proofs.C02Compose
 import Earverif.Proofs.C02Render
+import Earverif.Proofs.C02RenderTS
+import Earverif.Props.C20
 namespace Earverif.Stream
 
 /-- **`delay_eq`** — `Delay(delay = d)` fed ANY partition `parts` of a stream `x = parts.flatten`
@@ -157,3 +159,53 @@ example : AlignerFact (V := Rat) 1 [(2, [1, 2], [10, 20], [100, 200]), (3, [3, 4
   ⟨_, _, rfl, by decide +kernel⟩
 
 end Earverif.Renderer
+
+/-! ### The composition with track processors (`Model/RendererTS.lean`): every item's audio comes from
+`TrackProcessor(item.track_spec)` / `MultiTrackProcessor(item.track_specs)` (the C20 state machine) -/
+namespace Earverif.RendererTS
+open Earverif.Stream Earverif.Timeline Earverif.Renderer
+open Earverif.TrackSpec (Spec Proc)
+
+section
+variable {V : Type} [RMod V] [LawfulRMod V]
+
+/- `render_refines_spec_ts` (in `Proofs/C02RenderTS.lean`, audited with the theorems below): for every
+`SessionOKTS` session and every partition, `renderAllTS = .ok ((RenderSpec.out c directItems (itemStreams …
+parts.flatten)).take T)` — the C02/C03 specification applied to the per-item streams `meaning(spec)` of C20.
+`render_eq_outTS` is the same with the right-hand side written out (`outTS`). -/
+
+/-- **`C02_block_independent_ts`** — with arbitrary well-formed track specs on the items (direct, silent, mix, gain,
+matrix coefficient with gain and delay, nested), the rendered audio (all returned blocks and the tail, concatenated)
+does not depend on how the input is divided into `render` calls; every blocking succeeds.  In particular the delay
+lines inside the track processors carry their samples correctly across every block boundary, and across the tail. -/
+theorem C02_block_independent_ts (c : Cfg V) (objs : List (ObjItemTS V)) (dss : List (DsItemTS V))
+    (hoas : List (HoaItemTS V)) (hok : SessionOKTS c objs dss hoas) (p q : List (List (List Rat)))
+    (h : p.flatten = q.flatten) :
+    renderAllTS c objs dss hoas p = renderAllTS c objs dss hoas q := by
+  rw [render_eq_outTS c objs dss hoas hok p, render_eq_outTS c objs dss hoas hok q, h]
+
+/-- **`C02_length_and_origin_ts`** — every blocking succeeds, the output has exactly the input's length and frame `s`
+is output time `s` (the specified sample `outAtTS … s`). -/
+theorem C02_length_and_origin_ts (c : Cfg V) (objs : List (ObjItemTS V)) (dss : List (DsItemTS V))
+    (hoas : List (HoaItemTS V)) (hok : SessionOKTS c objs dss hoas) (parts : List (List (List Rat))) :
+    ∃ out, renderAllTS c objs dss hoas parts = .ok out ∧ out.length = parts.flatten.length ∧
+      ∀ s, s < parts.flatten.length → out[s]? = some (outAtTS c objs dss hoas parts.flatten s) := by
+  refine ⟨_, render_eq_outTS c objs dss hoas hok parts, by simp [outTS], ?_⟩
+  intro s hs
+  simp only [outTS, List.getElem?_map, List.getElem?_range hs, Option.map_some]
+
+end
+
+/-- The stream `meaning(spec)(x ++ tail silence)` the specification reads (`sAt`) is literally what the real
+`TrackProcessor(spec)` returns over the calls of a session — C20's `processor_eq_meaning` for the partition
+`parts ++ [tail block]`. -/
+theorem item_stream_eq_processor_run {V : Type} (c : Cfg V) (spec : Spec Rat)
+    (hwf : spec.wf (c.sr : Int) c.n_in = true) (parts : List (List (List Rat))) :
+    ∃ outs, TrackSpec.runSpec c.sr c.n_in spec (parts ++ [tailFrames c]) = .ok outs ∧
+      outs.flatten = TrackSpec.meaning c.sr c.n_in spec (parts.flatten ++ tailFrames c) := by
+  obtain ⟨h1, h2⟩ := TrackSpec.processor_eq_meaning (c.sr : Int) c.n_in spec hwf (parts ++ [tailFrames c])
+  refine ⟨_, h1, ?_⟩
+  rw [h2]
+  simp
+
+end Earverif.RendererTS
